@@ -69,6 +69,9 @@ pub struct ReqSpec {
     pub body: Body,
     /// body content: 0 letters; 1 a complete embedded request; 2 `0 CRLF CRLF` followed by an embedded request
     pub payload: u8,
+    /// the request line says HTTP/1.0 (never together with a chunked body: that is a mutator's job)
+    #[serde(default)]
+    pub http10: bool,
 }
 
 #[derive(Clone, Copy, Debug, Serialize, Deserialize, PartialEq)]
@@ -324,7 +327,7 @@ fn build_msg(case: &Case, k: usize, r: &ReqSpec, last: bool) -> Msg {
         sp1: b" ".to_vec(),
         target: target.into_bytes(),
         sp2: b" ".to_vec(),
-        version: b"HTTP/1.1".to_vec(),
+        version: if r.http10 { b"HTTP/1.0".to_vec() } else { b"HTTP/1.1".to_vec() },
         line_tail: vec![],
         line_eol: b"\r\n".to_vec(),
         headers,
@@ -851,8 +854,9 @@ fn req_spec() -> impl Strategy<Value = ReqSpec> {
             3 => (body_len(), prop::collection::vec(prop_oneof![Just(1usize), 1usize..40, 40usize..5000], 1..4)).prop_map(|(l, s)| Body::Chunked(l, s)),
         ],
         prop_oneof![5 => Just(0u8), 2 => Just(1u8), 2 => Just(2u8)],
+        prop::bool::weighted(0.12),
     )
-        .prop_map(|(method, path, absolute, host, mut extra, body, payload)| {
+        .prop_map(|(method, path, absolute, host, mut extra, body, payload, http10)| {
             // one field per name (two Cookie / Connection fields are a different experiment)
             let mut seen = vec![];
             extra.retain(|(n, _)| {
@@ -860,7 +864,8 @@ fn req_spec() -> impl Strategy<Value = ReqSpec> {
                 seen.push(*n);
                 keep
             });
-            ReqSpec { method, path, absolute, host, extra, body, payload }
+            let http10 = http10 && !matches!(body, Body::Chunked(..));
+            ReqSpec { method, path, absolute, host, extra, body, payload, http10 }
         })
 }
 
